@@ -29,7 +29,7 @@ func runC19(c *Ctx) {
 		}
 		f, o := c.LockPairingRule("C19-R1", []string{"aqua/event"}, cfg, map[string]string{
 			"(*aqua/event.TypeMux).del": "locks mux.mutex and unlocks s.mux.mutex: the same object by construction (s.mux == mux for every subscription handed to del)",
-			"(*aqua/event.Feed).init":  "deposits the initial token: runs exactly once under sync.Once before any acquire",
+			"(*aqua/event.Feed).init":   "deposits the initial token: runs exactly once under sync.Once before any acquire",
 		})
 		c.Extra["functions_with_lock_ops"] = f
 		c.Extra["lock_operations"] = o
